@@ -26,6 +26,7 @@ inductive Body where
 /-- What kind of job sits in a queue. `op` is the API-level operation the job carries. -/
 inductive JobKind where
   | plain (op : Nat)                          -- desync closure
+  | immediate (owner : Nat) (body : Body)     -- sync_immediate: the closure runs on the caller without being queued
   | erasedDrain (owner : Nat) (body : Body)   -- sync_drain's lifetime-erased job (owner = calling activity)
   | erasedBg (owner : Nat) (body : Body)      -- sync_background's lifetime-erased job
   | fut (op : Nat) (gate : Option Nat) (res : Nat)   -- future_desync: begin; await gate; end; signal res
@@ -87,6 +88,13 @@ inductive Call where
   | setMax (n : Nat) | despawn
   deriving DecidableEq, Repr, Hashable, Inhabited
 
+/-- Who is running a job: decides the waker its poll gets, and where control goes on Ready / Pending. -/
+inductive Ctx where
+  | caller (q : Nat)            -- run_one_job_now on a thread inside sync (continuation kept in the pc)
+  | pool (p : Nat) (q : Nat)    -- JobQueue::drain on pool thread p
+  | task (f : Nat) (l : Nat) (q : Nat)   -- SchedulerFuture::drain_queue of future f, with DrainWaker l
+  deriving DecidableEq, Repr, Hashable, Inhabited
+
 /-- Program counters: one per critical section or blocking call of the crate's functions.
 `k` arguments are continuations (what the enclosing function does next). -/
 inductive Pc where
@@ -126,7 +134,7 @@ inductive Pc where
   -- sync / try_sync
   | syDecide (q : Nat) (b : Body)
   | tsDecide (q : Nat) (b : Body)
-  | siIdle (q : Nat)                      -- sync_immediate: set Idle
+  | siIdle (q : Nat) (j : Nat)            -- sync_immediate: set Idle
   | sdPush (q : Nat) (b : Body)
   | sdCheck (q : Nat) (j : Nat)           -- `while result.is_none()`
   | sdIdle (q : Nat)
@@ -151,14 +159,15 @@ inductive Pc where
   | rjPark (q : Nat) (j : Nat) (k : Pc)
   | rjParked (q : Nat) (j : Nat) (k : Pc)
   -- polling / running one job `j` with context waker `w` -> `kReady` / `kPending`
-  | jobStart (j : Nat) (w : Waker) (kr : Pc) (kp : Pc)
-  | jobAwait (j : Nat) (w : Waker) (kr : Pc) (kp : Pc)   -- poll the awaited event, registering `w` if it has not happened
-  | jobBodyDone (j : Nat) (kr : Pc)        -- closure returned: job-specific epilogue
-  | jobEnd (j : Nat) (kr : Pc)             -- H `end`
-  | jobSignal (j : Nat) (kr : Pc)          -- signal(): result slot critical section
-  | jobSigDrop (j : Nat) (kr : Pc)         -- the signaller is dropped at the end of signal(): it locks the slot once more
-  | jobDrop (j : Nat) (kr : Pc)            -- the job box is dropped (erased bg job: set ready, notify_all)
-  | jobDropNotify (j : Nat) (kr : Pc)
+  -- (`c` = who runs it; `k` = the caller-side continuation, unused for the other contexts)
+  | jobStart (j : Nat) (c : Ctx) (k : Pc)
+  | jobAwait (j : Nat) (c : Ctx) (k : Pc)      -- poll the awaited event, registering the context's waker if it has not happened
+  | jobBodyDone (j : Nat) (c : Ctx) (k : Pc)   -- closure returned: job-specific epilogue
+  | jobEnd (j : Nat) (c : Ctx) (k : Pc)        -- H `end`
+  | jobSignal (j : Nat) (c : Ctx) (k : Pc)     -- signal(): result slot critical section
+  | jobSigDrop (j : Nat) (c : Ctx) (k : Pc)    -- the signaller is dropped at the end of signal(): it locks the slot once more
+  | jobDrop (j : Nat) (c : Ctx) (k : Pc)       -- the job box is dropped (erased bg job: set ready, notify_all)
+  | jobDropNotify (j : Nat) (c : Ctx) (k : Pc)
   -- pool thread
   | ptRecv (p : Nat)
   | ptRecvd (p : Nat)
@@ -175,17 +184,17 @@ inductive Pc where
   | pfPoll (f : Nat)
   | pfPollRel (f : Nat) (next : Pc)
   | pfBlocked (f : Nat)                    -- returned Pending: task waits for its waker
-  | dqCheck (f : Nat)
-  | dqDequeue (f : Nat)
-  | dqRequeue (f : Nat) (j : Nat) (l : Nat)
-  | dqCheck2 (f : Nat) (l : Nat)
-  | dqSetWfw (f : Nat) (l : Nat)
-  | dqStore (f : Nat) (l : Nat)
-  | dqSetWfp (f : Nat) (l : Nat)
+  | dqCheck (f : Nat) (q : Nat)
+  | dqDequeue (f : Nat) (q : Nat)
+  | dqRequeue (f : Nat) (j : Nat) (l : Nat) (q : Nat)
+  | dqCheck2 (f : Nat) (l : Nat) (q : Nat)
+  | dqSetWfw (f : Nat) (l : Nat) (q : Nat)
+  | dqStore (f : Nat) (l : Nat) (q : Nat)
+  | dqSetWfp (f : Nat) (l : Nat) (q : Nat)
   | dqWakeWith (f : Nat) (l : Nat) (w : Waker) (k : Pc)
-  | dqStore2 (f : Nat)
-  | dqIdle2 (f : Nat)
-  | dqIdle (f : Nat)
+  | dqStore2 (f : Nat) (q : Nat)
+  | dqIdle2 (f : Nat) (q : Nat)
+  | dqIdle (f : Nat) (q : Nat)
   | fsTake (f : Nat)
   | fsTake2 (f : Nat)
   -- pool management
